@@ -31,6 +31,7 @@ class AttemptState:
     """Tracks mutable state within a single attempt iteration."""
 
     started: bool = False
+    returned: bool = False
     end_called: bool = False
     classification: Classification | None = None
     result: Any | None = None
